@@ -20,7 +20,7 @@ func C02(c *core.Ctx) {
 		"abstract schema, and no presence test for an optional or defaulted property (valid documents are not over-rejected by construction). A-OVERREJ: a branch that IS attributable to a keyword rejects no more than the keyword does — " +
 		"the operator is not weaker-than-strict where the schema is strict and not the other direction, and a limit that was rounded before printing pairs with the operator that makes it exact for fractional limits " +
 		"(value < ceil(b) = value <= floor(b) is the reject set of both value < b and value <= b). B-SIZED: with --min-sized-ints the chosen integer type holds every " +
-		"admitted value in every cell of the width table (region-domain interpretation, shared with C15). B-LAYOUT: in pkg/types each MarshalJSON prints with the layout constant its sibling UnmarshalJSON parses " +
+		"admitted value in every cell of the width table (region-domain interpretation, shared with C15), and A-SIZED decides the same end to end on optional integer properties in every bound form. B-LAYOUT: in pkg/types each MarshalJSON prints with the layout constant its sibling UnmarshalJSON parses " +
 		"with, on every return path. B-ADDPROPS: both emitters delete the declared keys from the raw map before collecting the remainder; A-SHADOW: in the emitted block the declared keys are enumerated by reflection over the shadow type of the decoded value, also when the schema declares a type of that very name. " +
 		"Not decided: value equality after a round trip, numeric precision, RFC 3339 conformance of the layouts, encoding/json's case-insensitive key matching — runtime quantities."
 	rules := ruleSet("A-TAG", "A-MAP", "A-NOEXTRA", "A-OVERREJ", "A-SHADOW")
@@ -67,4 +67,7 @@ func C02(c *core.Ctx) {
 	emit(c, a.Layout())
 	emit(c, a.AddPropsBlock())
 	ruleSizedTable(c)
+	// ... and end to end: the generator under --min-sized-ints on integer properties with integral bounds in every form never picks a
+	// type that cannot hold an admitted value and never enforces an unstated bound (A-SIZED families, shared with C15/C05)
+	ruleSizedFamilies(c, []string{"optional"}, 600)
 }
